@@ -13,7 +13,7 @@ EXPLANATION = (
     'definition (new: a = sum x_i, b = sum (n-i) x_i; push: a\'=a+x, b\'=b+a\', n\'=n+1; roll: a\'=a-old+new, b\'=b-n*old+a\', n\'=n; digest = ((b mod M)<<16)|(a mod M)); '
     '(O3) the range invariant of each type is re-established by every method (eager type: both fields < 65521; lazy type: linear-in-rolls bound, inductive, reset by the '
     'normalising branch; rolls < NORMALIZE_INTERVAL); (O4) len() returns the window length; a field that caches a function of the window length (found from the constructor: field == P(count)) follows the count in every method that changes it; both types share the definition and modulus 65521, hence equal digests. '
-    'A single undischarged obligation is a violation. Induction over operation sequences is by the per-method invariant (assume at entry, re-establish at exit).')
+    'A single undischarged obligation is a violation. A type that never stores a residue into `a` (exact byte sum) is not decided: its bounds rest on the subtracted byte being one of the summands. Induction over operation sequences is by the per-method invariant (assume at entry, re-establish at exit).')
 ASSUMPTIONS = ['window length <= 65536 (the maximum block size; the bound of the property)', 'MIR arithmetic semantics of rustc (wrapping_*, as casts, %)']
 
 NMAX = 65536
